@@ -2,6 +2,7 @@ package harness
 
 import (
 	"fmt"
+	"sort"
 	"testing"
 
 	"github.com/gethiox/HIDI/internal/pkg/midi/device/config"
@@ -28,7 +29,17 @@ func genC05(t *rapid.T) KeyCase {
 	d.Velocity = corner(t, "velocity", 0, 127, -1, 128, 129)
 	d.Octave = rapid.IntRange(-2, 2).Draw(t, "octave")
 	d.Semitone = rapid.IntRange(-3, 3).Draw(t, "semitone")
-	acts := []string{"panic", "channel_up", "channel_down", "octave_up", "octave_down", "cc_learning"}
+	// every action the code under test accepts, taken from its own table: an action this harness has no model of (one added
+	// later) is bound and pressed like the others - well-formedness needs no model
+	acts := []string{"panic", "channel_up", "channel_down"}
+	var rest []string
+	for a := range config.SupportedActions {
+		if a != "panic" && a != "channel_up" && a != "channel_down" {
+			rest = append(rest, string(a))
+		}
+	}
+	sort.Strings(rest)
+	acts = append(acts, rest...)
 	for i, a := range acts {
 		d.Actions = append(d.Actions, ActionDef{Code: uint16(59 + i), Action: a})
 	}
@@ -82,6 +93,10 @@ func genC05(t *rapid.T) KeyCase {
 			a.Type = "action"
 			a.Action = strp("channel_up")
 			a.ActionNeg = strp("channel_down")
+			if rapid.Bool().Draw(t, "anyAxisAction") {
+				a.Action = strp(rapid.SampledFrom(acts).Draw(t, "axisAction"))
+				a.ActionNeg = strp(rapid.SampledFrom(acts).Draw(t, "axisActionNeg"))
+			}
 		}
 		m.Axes = append(m.Axes, a)
 	}
@@ -119,8 +134,15 @@ func genC05(t *rapid.T) KeyCase {
 			}
 		case 2:
 			tap(uint16(30 + rapid.IntRange(0, nk-1).Draw(t, "key")))
-		case 3:
-			tap(uint16(62 + rapid.IntRange(0, 2).Draw(t, "other")))
+		case 3: // any other action of the table, once or many times in a row
+			code := uint16(62 + rapid.IntRange(0, len(rest)-1).Draw(t, "other"))
+			k := 1
+			if rapid.IntRange(0, 2).Draw(t, "otherBurst") == 0 {
+				k = rapid.IntRange(2, 16).Draw(t, "otherBurstLen")
+			}
+			for ; k > 0; k-- {
+				tap(code)
+			}
 		default:
 			ai := rapid.IntRange(0, len(m.Axes)-1).Draw(t, "axis")
 			a := m.Axes[ai]
